@@ -316,6 +316,9 @@ func blsSingleCase[
 	if alt == "pop-other-key" || alt == "pop-missing" || alt == "pop-msg-dst" {
 		alg = bls.POP // proof-of-possession alterations need the POP scheme
 	}
+	if alt == "pk+torsion" && rapid.Bool().Draw(t, "isolate") {
+		alg = bls.Basic // no second line of defence (AugmentMessage / PopVerify) behind the subgroup check
+	}
 	msg, msgClass := genMsg(t, "msg", false)
 	sch, err := e.scheme(alg)
 	if err != nil {
@@ -533,12 +536,21 @@ func blsAggCase[
 		alg = bls.POP
 	case "pops-on-non-pop":
 		alg = rapid.SampledFrom([]bls.RogueKeyPreventionAlgorithm{bls.Basic, bls.MessageAugmentation}).Draw(t, "algNoPop")
+	case "identity-key-consistent", "torsion-key":
+		// under Basic with distinct messages the identity / subgroup check on the key is the ONLY
+		// thing that rejects these (Aug and POP have a second line of defence in AugmentMessage / PopVerify)
+		if rapid.IntRange(0, 2).Draw(t, "isolate") > 0 {
+			alg, layouts = bls.Basic, []string{"distinct"}
+		}
 	}
 	switch alt {
 	case "drop-sig", "drop-key", "pop-wrong", "identity-key-consistent":
 		minN = 2
 	case "swap-msgs", "swap-keys":
 		minN, layouts = 2, []string{"distinct", "one-dup"}
+	}
+	if alt == "pop-wrong" {
+		layouts = []string{"distinct", "same", "one-dup"}
 	}
 	n := rapid.IntRange(minN, 6).Draw(t, "n")
 	layout := rapid.SampledFrom(layouts).Draw(t, "layout")
